@@ -70,6 +70,22 @@ func TranslateContextError(err error) error {
 	return err
 }
 
+// HandlerErrorToStatus converts an error returned by a server handler into the
+// error that is reported to the client, the same way the standard gRPC server
+// does: errors that carry a gRPC status are returned as is, context errors are
+// converted to Canceled or DeadlineExceeded statuses, and any other error
+// (including io.EOF, which clients would otherwise mistake for a normal end of
+// stream) becomes a status with code Unknown.
+func HandlerErrorToStatus(err error) error {
+	if err == nil {
+		return nil
+	}
+	if _, ok := status.FromError(err); ok {
+		return err
+	}
+	return status.FromContextError(err).Err()
+}
+
 // FindUnaryMethod returns the method descriptor for the named method. If the
 // method is not found in the given slice of descriptors, nil is returned.
 func FindUnaryMethod(methodName string, methods []grpc.MethodDesc) *grpc.MethodDesc {
